@@ -3,8 +3,8 @@ from corr import kern_family
 from checks import _sym
 from oracles import c15 as oracle
 
-GEN = ["Const", "Tol"] + _sym.GEN
-LEAN_TARGETS = ["MagpyVerif.Props.C15"] + _sym.LEAN_TARGETS
+GEN = ["Const", "Tol", "CylSegGen"] + _sym.GEN
+LEAN_TARGETS = ["MagpyVerif.Props.C15", "MagpyVerif.Gen.CylSegGen"] + _sym.LEAN_TARGETS  # CylSegGen: the regenerated CylinderSegment translation and its `sync_*` theorems against the frozen model
 PROPS = ["MagpyVerif.Props.C15"] + _sym.PROPS
 
 
@@ -15,6 +15,9 @@ def run(ctx, model_ok):
         ctx.cov["traces_validated_against_impl"] = st["rows"]
         st.pop("samples")
         ctx.cov["correspondence"] = st
+    # the CylinderSegment theorems are about Model/CylSeg*.lean: is the frozen translation still what the source says, and does the port agree with the real code?
+    from checks import _cylseg
+    _cylseg.run(ctx, ctx.scale(300, 10000))
     budget = 4 if len(ctx.broken) else 1
     fails, ost = oracle.sweep(ctx, ctx.scale(60, 1500) * budget)
     ctx.failing += fails
@@ -31,6 +34,7 @@ def run(ctx, model_ok):
                             "(cel_iterv and the dispatcher cel_iter ARE modelled, tied by the kern stream and proved to terminate on batches)",
                             "definedness of the CylinderSegment closed form off its special sets (ported with opaque special functions; no theorem, in particular none that bhjmCylSeg / "
                             "bhjmCylSegInternal returns a value). Cuboid: the edge mask is proved to cover the zero set of all 24 logarithm factors "
+                            "CylinderSegment: the NaN rows of the dispatch are characterised exactly (`cylseg_nan_rows_characterised`); observers that `close` keeps off both base planes always get a row (`wrapper_never_dispatches_unhandled_partial`); the full statement is FALSE (`cylseg_apex_end_point_nan`, `cylseg_next_to_vertex_unhandled`, both reproduced on the real code: NaN); definedness of the individual closed forms (divisors, log / atanh arguments) off their special sets is not shown. Cuboid: the edge mask is proved to cover the zero set of all 24 logarithm factors "
                             "(`cuboid_defined_off_edges`), arctan2(0,0) is proved to occur exactly on the three edge lines incl. their extensions, where the general branch IS reached "
                             "(`cuboid_edge_extension_reaches_general`; harmless in IEEE arithmetic, probed); Triangle: defined off the closed edges EXCEPT on a spherical cap inside the branch-switch cone "
                             "(`triangle_defined_off_edges`, `triangle_cap_singular`; recorded finding near-vertex); Polyline: `polyline_masks_cover_singular`; "
